@@ -11,6 +11,9 @@ findings, search, --replay) is vlib's standard flow.
 """
 
 
+FOLLOW = {"c11", "c12", "c13", "c14", "c15"}
+
+
 def install_follow(c):
     if getattr(c, "_flood_follow", False):
         return
@@ -24,7 +27,7 @@ def install_follow(c):
         return out
 
     def lean_run(engine, lines, mode=None):
-        if mode is None:
+        if mode is None and engine in FOLLOW:
             if last.get("lines") != list(lines):
                 go_run(engine, lines)
             return orig_lean(engine, [op + "\t" + o for op, o in zip(lines, last["out"])], mode="follow")
